@@ -605,8 +605,34 @@ def run(ctx, report):
                 return i_ > 0 and u(lst[i_ - 1]).replace(' ', '') == 'bin.offset=init_offset'
         return False
     dis_rewinds = bool(fails) and all(rewinds_before(r) for r in fails)
+    # the restoring entry point, evaluated for a stream at offset 0 and at offset 5 with a _dis that consumes 2 bytes and fails
+    if entry_restores and not dis_rewinds:
+        from ..consteval import Native as _Nat
+        for start in (0, 5):
+            stream_, inst_, cls_ = Obj('stream'), Obj('instr'), Obj('cls')
+            stream_.offset = start
+
+            def failing_dis(op_, _s=stream_):
+                _s.offset = _s.offset + 2
+                return False
+            inst_.__init__ = _Nat(lambda *a: None)
+            inst_._dis = _Nat(failing_dis)
+            cls_.__new__ = _Nat(lambda c, _i=inst_: _i)
+            try:
+                out_ = Evaluator({}).call_user(entry, [cls_, stream_])
+            except NotConst as e:
+                raise AnalysisError('x86_mnemo_metaclass.dis is outside the statically evaluable subset: %s' % e)
+            if out_ is not None or stream_.offset != start:
+                entry_restores = False
+                R4.violation('dis:failure-rewinds@%d' % start, 'dis:failure-leaves-offset:start=%d' % start, 'a rejected decode on a stream positioned at offset %d returns %r and leaves the '
+                             'offset at %d' % (start, out_, stream_.offset), where(arch, entry), witness="s = bin_stream(b'\\xb8\\x01\\x02', 0); dis(s) is None but s.offset == 1")
+                break
+        if not entry_restores:
+            pass
     if entry_restores or dis_rewinds:
         R4.ok('dis:failure-rewinds', sample='a failed decode restores the stream offset (%s)' % ('entry point' if entry_restores else 'every failing exit of _dis'))
+    elif any(k.startswith('dis:failure-leaves-offset:start=') for k in [v.key for v in R4.findings]) if hasattr(R4, 'findings') else False:
+        pass
     else:
         R4.violation('dis:failure-rewinds', 'dis:failure-leaves-offset', 'when _dis finds no instruction (%d failing exits) the bytes it consumed stay consumed: the same dis() call on the same '
                      'stream then decodes from the middle of the rejected bytes' % len(fails), where(arch, entry), witness='s = bin_stream(b"\\x0f\\x0b\\x90"...): dis(s) is None twice is not guaranteed')
